@@ -168,12 +168,12 @@ impl Reader {
                         return Err(format::Error::Malformed);
                     }
                 }
-                if !(0 <= t.num && t.num <= self.header.hr.num_items - t.start) {
-                    error!("invalid item_type num: must be in range 0 to num_items - start + 1, item_type={} type_id={} start={} num={}", i, t.type_id, t.start, t.num);
-                    return Err(format::Error::Malformed);
-                }
                 if t.start != expected_start {
                     error!("item_types are not sequential, item_type={} type_id={} start={} expected={}", i, t.type_id, t.start, expected_start);
+                    return Err(format::Error::Malformed);
+                }
+                if !(0 <= t.num && t.num <= self.header.hr.num_items - t.start) {
+                    error!("invalid item_type num: must be in range 0 to num_items - start + 1, item_type={} type_id={} start={} num={}", i, t.type_id, t.start, t.num);
                     return Err(format::Error::Malformed);
                 }
                 expected_start += t.num;
